@@ -10,8 +10,11 @@
 #include <new>
 #include <sstream>
 #include <string>
+#include <tuple>
+#include <utility>
 #include <vector>
 
+#include <sys/mman.h>
 #include "glue.h"
 #include <nop/utility/endian.h>
 #include <nop/utility/sip_hash.h>
@@ -218,6 +221,27 @@ static std::string RunBoundedWrites(W& inner, std::size_t limit, const std::vect
 template <typename W>
 static std::string WriterObs(const W& w) { return " obs=" + std::to_string(w.size()) + "/" + std::to_string(w.capacity()); }
 
+// an output stream that takes CAP bytes and refuses the rest (what a full device or a fixed buffer does)
+struct CapBuf : std::streambuf {
+  std::string data; std::size_t cap = 0;
+  int_type overflow(int_type c) override {
+    if (traits_type::eq_int_type(c, traits_type::eof())) return traits_type::not_eof(c);
+    if (data.size() >= cap) return traits_type::eof();
+    data.push_back(traits_type::to_char_type(c));
+    return c;
+  }
+  std::streamsize xsputn(const char* p, std::streamsize n) override {
+    std::size_t room = cap - data.size();
+    std::size_t k = static_cast<std::size_t>(n) < room ? static_cast<std::size_t>(n) : room;
+    data.append(p, k);
+    return static_cast<std::streamsize>(k);
+  }
+};
+struct CapStream : std::ostream {
+  CapBuf buf;
+  explicit CapStream(std::size_t cap) : std::ostream(nullptr) { buf.cap = cap; rdbuf(&buf); }
+};
+
 // wseq KIND CAP LIMIT FAULTK FAULTCODE CALLS
 static std::string DoWseq(const std::vector<Sx>& a) {
   const std::string& kind = a.at(1).a;
@@ -249,6 +273,26 @@ static std::string DoWseq(const std::vector<Sx>& a) {
     std::string s = w.stream().str();
     return "res=" + (out.empty() ? "-" : out) + " bytes=" + Hex(reinterpret_cast<const std::uint8_t*>(s.data()), s.size());
   }
+  if (kind == "lstream" || kind == "blstream") {
+    nop::StreamWriter<CapStream> w{cap};
+    std::string out;
+    if (kind == "blstream") {
+      nop::BoundedWriter<nop::StreamWriter<CapStream>> b{&w, limit};
+      for (const auto& c : calls) {
+        if (!out.empty()) out += ",";
+        if (c[0] == 'K') { auto x = c.find(':'); out += std::to_string(Code(b.Skip(ParseInt<std::size_t>(c.substr(1, x - 1)), static_cast<std::uint8_t>(ParseInt<unsigned>(c.substr(x + 1)))))); }
+        else out += OneWriteBytes(b, c);
+      }
+    } else {
+      for (const auto& c : calls) {
+        if (!out.empty()) out += ",";
+        if (c[0] == 'K') { auto x = c.find(':'); out += std::to_string(Code(w.Skip(ParseInt<std::size_t>(c.substr(1, x - 1)), static_cast<std::uint8_t>(ParseInt<unsigned>(c.substr(x + 1)))))); }
+        else out += OneWriteBytes(w, c);
+      }
+    }
+    const std::string& d = w.stream().buf.data;
+    return "res=" + (out.empty() ? "-" : out) + " bytes=" + Hex(reinterpret_cast<const std::uint8_t*>(d.data()), d.size());
+  }
   if (kind == "fd") {
     int fd = memfd_create("verifw", 0); int dupfd = dup(fd);
     std::string out;
@@ -269,6 +313,43 @@ static std::string DoSip(const std::vector<Sx>& a) {
   std::uint64_t h8 = nop::SipHash::Compute(nop::BlockReader<std::uint8_t>(in.p, in.n), k0, k1);
   std::uint64_t hc = nop::SipHash::Compute(nop::BlockReader<char>(reinterpret_cast<const char*>(in.p), in.n), k0, k1);
   return "h=" + std::to_string(h8) + " hchar=" + std::to_string(hc);
+}
+
+// reference SipHash-2-4 (the published algorithm, written out independently of the library) for inputs too long for the
+// Python and Coq references: sipbig LOG2 EXTRA K0 K1 hashes 2^LOG2 + EXTRA bytes (zeros, the last EXTRA bytes 1, 2, 3, ...)
+static inline std::uint64_t Rotl64(std::uint64_t x, int b) { return (x << b) | (x >> (64 - b)); }
+static std::uint64_t RefSipHash24(const std::uint8_t* in, std::uint64_t n, std::uint64_t k0, std::uint64_t k1) {
+  std::uint64_t v0 = 0x736f6d6570736575ULL ^ k0, v1 = 0x646f72616e646f6dULL ^ k1, v2 = 0x6c7967656e657261ULL ^ k0, v3 = 0x7465646279746573ULL ^ k1;
+  auto round = [&]() {
+    v0 += v1; v1 = Rotl64(v1, 13); v1 ^= v0; v0 = Rotl64(v0, 32);
+    v2 += v3; v3 = Rotl64(v3, 16); v3 ^= v2;
+    v0 += v3; v3 = Rotl64(v3, 21); v3 ^= v0;
+    v2 += v1; v1 = Rotl64(v1, 17); v1 ^= v2; v2 = Rotl64(v2, 32);
+  };
+  const std::uint64_t blocks = n / 8;
+  for (std::uint64_t i = 0; i < blocks; i++) {
+    std::uint64_t m = 0;
+    for (int j = 0; j < 8; j++) m |= static_cast<std::uint64_t>(in[i * 8 + j]) << (8 * j);
+    v3 ^= m; round(); round(); v0 ^= m;
+  }
+  std::uint64_t b = (n & 0xff) << 56;
+  for (std::uint64_t j = 0; j < (n & 7); j++) b |= static_cast<std::uint64_t>(in[blocks * 8 + j]) << (8 * j);
+  v3 ^= b; round(); round(); v0 ^= b;
+  v2 ^= 0xff; round(); round(); round(); round();
+  return v0 ^ v1 ^ v2 ^ v3;
+}
+static std::string DoSipBig(const std::vector<Sx>& a) {
+  const std::uint64_t n = (std::uint64_t{1} << ParseInt<unsigned>(a.at(1).a)) + ParseInt<std::uint64_t>(a.at(2).a);
+  const std::uint64_t extra = ParseInt<std::uint64_t>(a.at(2).a);
+  std::uint64_t k0 = ParseInt<std::uint64_t>(a.at(3).a), k1 = ParseInt<std::uint64_t>(a.at(4).a);
+  void* mem = mmap(nullptr, n + 4096, PROT_READ | PROT_WRITE, MAP_PRIVATE | MAP_ANONYMOUS | MAP_NORESERVE, -1, 0);
+  if (mem == MAP_FAILED) return "unsupported";
+  std::uint8_t* p = static_cast<std::uint8_t*>(mem);
+  for (std::uint64_t i = 0; i < extra; i++) p[n - extra + i] = static_cast<std::uint8_t>(i + 1);
+  std::uint64_t h = nop::SipHash::Compute(nop::BlockReader<std::uint8_t>(p, n), k0, k1);
+  std::uint64_t ref = RefSipHash24(p, n, k0, k1);
+  munmap(mem, n + 4096);
+  return "h=" + std::to_string(h) + " ref=" + std::to_string(ref) + " n=" + std::to_string(n);
 }
 
 #include "sip_names.h"
@@ -347,6 +428,34 @@ static std::string DoRefW(const std::vector<Sx>& a) {
   if (k == "vi32") return RefW<std::vector<std::int32_t>>(bytes);
   if (k == "pair") return RefW<std::pair<std::int32_t, std::int32_t>>(bytes);
   return "HARNESS-ERROR kind";
+}
+
+// Protocol<P>::Write / Read take part in overload resolution exactly for the types fungible with P (protocol types
+// that are C arrays included): a detection matrix over a list of types, next to IsFungible itself
+template <typename...> struct MkVoid { using type = void; };
+template <typename P, typename T, typename = void> struct CanWrite : std::false_type {};
+template <typename P, typename T>
+struct CanWrite<P, T, typename MkVoid<decltype(nop::Protocol<P>::Write(std::declval<nop::Serializer<IWriter>*>(), std::declval<const T&>()))>::type> : std::true_type {};
+template <typename P, typename T, typename = void> struct CanRead : std::false_type {};
+template <typename P, typename T>
+struct CanRead<P, T, typename MkVoid<decltype(nop::Protocol<P>::Read(std::declval<nop::Deserializer<IReader>*>(), std::declval<T*>()))>::type> : std::true_type {};
+template <typename... Ts> struct TypeList {};
+template <typename P, typename... Ts>
+static void ProtoRow(std::string& w, std::string& r, std::string& f, TypeList<Ts...>) {
+  (void)std::initializer_list<int>{(w.push_back(CanWrite<P, Ts>::value ? '1' : '0'), r.push_back(CanRead<P, Ts>::value ? '1' : '0'),
+                                    f.push_back(nop::IsFungible<P, Ts>::value ? '1' : '0'), 0)...};
+  w.push_back('/'); r.push_back('/'); f.push_back('/');
+}
+template <typename... Ts>
+static std::string ProtoMatrix(TypeList<Ts...> l) {
+  std::string w, r, f;
+  (void)std::initializer_list<int>{(ProtoRow<Ts>(w, r, f, l), 0)...};
+  return "write=" + w + " read=" + r + " fungible=" + f;
+}
+static std::string DoProtoMatrix() {
+  using I3 = int[3]; using I5 = int[5]; using F3 = float[3];
+  return ProtoMatrix(TypeList<I3, I5, std::array<int, 3>, std::array<int, 5>, std::vector<int>, std::tuple<int, int, int>, std::pair<int, int>,
+                              F3, std::array<float, 3>, std::vector<float>, std::tuple<float, float, float>, int, std::string, std::vector<std::string>, std::string[3]>{});
 }
 
 // ------------------------------------------------------------------- endian --
@@ -468,7 +577,9 @@ int main() {
       else if (op == "cxcases") out = DoCx();
       else if (op == "sipnames") out = DoSipNames();
       else if (op == "siparr") out = DoSipArr(a);
+      else if (op == "sipbig") out = DoSipBig(a);
       else if (op == "refw") out = DoRefW(a);
+      else if (op == "protomatrix") out = DoProtoMatrix();
       else if (op == "endian") out = DoEndian(a);
       else if (op == "endiansweep") out = DoEndianSweep(a);
       else out = "HARNESS-ERROR unknown op " + op;
